@@ -357,5 +357,10 @@ class Explorer:
                 pass
             except Unsupported as e:
                 self.errors.append(f'{label}: unsupported: {e}')
+            except Exception as e:
+                if type(e).__name__ == 'PyRaise':
+                    self.errors.append(f'{label}: a Python exception of the program reached the harness unhandled: {e}')
+                else:
+                    raise
             self.stats.paths += 1
         return n
